@@ -135,6 +135,11 @@ class _Crit:
         else:
             L = np.linalg.cholesky(np.linalg.inv(self.Vi))
             A, b = np.linalg.solve(L, Xc.T), np.linalg.solve(L, yh)
+        amax = float(np.max(np.abs(A)))
+        if amax > 0 and not 1e-3 <= amax <= 1e3:
+            # extreme units: the maximiser is only defined up to a positive factor, so the system may be rescaled
+            # (scipy's nnls compares its dual vector with an absolute tolerance)
+            A = A / amax
         if nonneg:
             import scipy.optimize
             return scipy.optimize.nnls(A, b)[0]
@@ -153,27 +158,56 @@ class _Crit:
 # =====================================================================================================
 # problem construction (deterministic from the case)
 # =====================================================================================================
-def _labels(rs, n_all, desc):
+_NAMES = ('kiwi', 'apple', 'fig', 'date', 'plum', 'cherry', 'lime', 'pear', 'nut', 'yam', 'oat', 'rye')   # not in sorted order
+_DTYPES = ('int64', 'int32', 'int16', 'uint8', 'float32')
+SWEEP_KEYS = ('dtype', 'bscale', 'tscale', 'sscale', 'labels', 'pidx_as', 'groups', 'ctor', 'size')
+
+
+def _is_sweep(case):
+    """a case of the dimension sweeps (typed data, units, containers, grouped descriptors, sizes)"""
+    return any(a in case for a in SWEEP_KEYS)
+
+
+def _label_of(c, case):
+    return _NAMES[c] if case.get('labels') == 'str' else 10 + 3 * c
+
+
+def _labels(rs, n_all, desc, case=None):
+    case = case or {}
+    if desc == 'group':
+        # a descriptor whose values repeat: position p carries the value of group case['groups'][p]
+        groups = [int(g) for g in case['groups']]
+        return groups, [_label_of(g, case) for g in groups]
     if desc == 'cond':
         perm = [int(c) for c in rs.permutation(n_all)]
-        return perm, [10 + 3 * c for c in perm]
+        return perm, [_label_of(c, case) for c in perm]
     return list(range(n_all)), list(range(n_all))
 
 
 def _problem(case):
     """returns dict(basis_full (k x nd_all), labels, values (pattern_idx argument or None), S, X (k x present entries),
-    Y (r x present), train_vecs (r x all selected pairs, with nan), sigma, V (present x present), mask)"""
+    Y (r x present), train_vecs (r x all selected pairs, with nan), sigma, V (present x present), mask)
+
+    optional keys of the dimension sweeps (absent = the plain problem):
+      dtype   the basis and training RDMs hold whole numbers and are handed over in that numpy dtype (the spec side works on the
+              same values as float64)
+      bscale / tscale / sscale   units: the basis RDMs / training RDMs / sigma_k are multiplied by this positive factor
+      labels='str'   string-valued descriptor (desc 'cond' or 'group');  pidx_as  list / tuple / array for pattern_idx
+      desc='group', groups=[...]   a pattern descriptor whose values repeat; pidx then names GROUPS: every position that
+              carries a named value is selected, as often as the value is named
+      ctor='vectors'   the model is built from a plain array of RDM vectors (pattern descriptor 'index' only)"""
     rs = np.random.RandomState(case['seed'])
     k, n_all = case['k'], case['n_all']
     nd_all = n_all * (n_all - 1) // 2
-    cond_of_pos, labels = _labels(rs, n_all, case.get('desc', 'index'))
+    desc = case.get('desc', 'index')
+    cond_of_pos, labels = _labels(rs, n_all, desc, case)
     pidx = case.get('pidx')
     if pidx is None:
         S = list(range(n_all))
         values = None
     else:
         S = sorted(p for c in pidx for p in range(n_all) if cond_of_pos[p] == c)
-        values = [10 + 3 * c for c in pidx] if case.get('desc', 'index') == 'cond' else list(pidx)
+        values = [_label_of(c, case) for c in pidx] if desc in ('cond', 'group') else list(pidx)
     basis = 0.1 + rs.rand(k, nd_all)
     kind = case.get('kind', 'random')
     scales = np.array([1., 10., 0.1, 3., 0.5])[:case['n_train']]
@@ -214,6 +248,14 @@ def _problem(case):
     else:
         train = rs.rand(r, nd_all)
     train = train * scales[:, None] + (0.0 if kind == 'decoy' else 1.0) * rs.rand(r, 1) * scales[:, None]
+    if case.get('dtype'):
+        # whole numbers that every dtype of the sweep can hold (1 .. 241); the relative scale of the training RDMs is kept
+        if basis.min() < 0 or train.min() < 0:
+            raise ValueError('typed problems need non-negative RDMs (kinds random / posmix)')
+        basis = np.rint(basis * (110.0 / basis.max())) + 1.0
+        train = np.rint(train * (240.0 / train.max())) + 1.0
+    basis = basis * float(case.get('bscale', 1.0))
+    train = train * float(case.get('tscale', 1.0))
     n = len(S)
     Xs = np.array([_vec_from_mat(_mat_from_vec(b, n_all), S) for b in basis])
     Ts = np.array([_vec_from_mat(_mat_from_vec(t, n_all), S) for t in train])
@@ -226,14 +268,39 @@ def _problem(case):
         sigma = np.diag(0.5 + rs.rand(n))
     else:
         sigma = None
+    if sigma is not None:
+        sigma = sigma * float(case.get('sscale', 1.0))
     V = _spec_v(n, sigma)[mask][:, mask]
     return dict(basis=basis, labels=labels, values=values, S=S, X=Xs[:, mask], Y=Ts[:, mask], train_vecs=Ts,
                 sel_basis_vecs=Xs, sigma=sigma, V=V, mask=mask, n_all=n_all, cond_of_pos=cond_of_pos)
 
 
-def _rdms(vecs, labels):
+def _rdms(vecs, labels, dtype=None):
+    """RDMs object of the given vectors; with `dtype` the vectors are handed over in that numpy dtype (whole numbers are
+    represented exactly in every dtype of the sweep; vectors with missing entries stay floating point)"""
     from rsatoolbox.rdm import RDMs
-    return RDMs(np.array(vecs, dtype=float), pattern_descriptors={'cond': list(labels)})
+    arr = np.array(vecs, dtype=float)
+    if dtype is not None and (dtype.startswith('float') or not np.any(np.isnan(arr))):
+        typed = arr.astype(dtype)
+        if not np.array_equal(typed.astype(float), arr, equal_nan=True):
+            raise ValueError(f'values are not representable as {dtype}')
+        arr = typed
+    return RDMs(arr, pattern_descriptors={'cond': list(labels)})
+
+
+def _model(cls_name, case, pb, name='m'):
+    """the model of a fit problem: built from an RDMs object (descriptor 'cond' = the labels) or, with ctor='vectors', from a
+    plain array of RDM vectors (then only the descriptor 'index' exists)"""
+    import rsatoolbox.model as M
+    cls = getattr(M, cls_name)
+    if case.get('ctor') == 'vectors':
+        arr = np.array(pb['basis'], dtype=float)
+        return cls(name, arr.astype(case['dtype']) if case.get('dtype') else arr)
+    return cls(name, _rdms(pb['basis'], pb['labels'], case.get('dtype')))
+
+
+def _train(case, pb):
+    return _rdms(pb['train_vecs'], [pb['labels'][s] for s in pb['S']], case.get('dtype'))
 
 
 def _fit_kwargs(case, pb):
@@ -241,27 +308,69 @@ def _fit_kwargs(case, pb):
     if pb['sigma'] is not None:
         kw['sigma_k'] = pb['sigma'].copy()
     if pb['values'] is not None:
-        kw['pattern_idx'] = np.array(pb['values'])
-        kw['pattern_descriptor'] = case.get('desc', 'index')
+        as_ = case.get('pidx_as', 'array')
+        kw['pattern_idx'] = (list(pb['values']) if as_ == 'list' else tuple(pb['values']) if as_ == 'tuple'
+                             else np.array(pb['values']))
+        kw['pattern_descriptor'] = {'group': 'cond'}.get(case.get('desc', 'index'), case.get('desc', 'index'))
     return kw
 
 
-def _call_fit(fit_name, model, data, kw, via='direct', seed=0, **extra):
+class _Timeout(Exception):
+    pass
+
+
+class _time_limit:
+    """turns a fit that does not return (an active-set or line-search loop that never meets an absolute threshold) into a
+    failure of the case instead of a hanging check; used for the cases of the dimension sweeps only.  The limit is far
+    above the run time of any fit of this tier (< 1 s), so it does not make results depend on the machine."""
+
+    def __init__(self, seconds):
+        self.seconds = seconds
+        self.armed = False
+
+    def _raise(self, *_):
+        raise _Timeout(f'the call did not return within {self.seconds} s')
+
+    def __enter__(self):
+        import signal
+        if self.seconds:
+            try:
+                self.old = signal.signal(signal.SIGALRM, self._raise)
+                signal.alarm(self.seconds)
+                self.armed = True
+            except ValueError:        # not in the main thread: no guard
+                pass
+        return self
+
+    def __exit__(self, *exc):
+        import signal
+        if self.armed:
+            signal.alarm(0)
+            signal.signal(signal.SIGALRM, self.old)
+        return False
+
+
+def _call_fit(fit_name, model, data, kw, via='direct', seed=0, limit=None, **extra):
     """calls the real fitter with numpy's global generator seeded (fit_optimize* draw their starting points from it)"""
     import rsatoolbox.model.fitter as F
     state = np.random.get_state()
     np.random.seed(seed)
     try:
-        if via == 'model.fit':
-            return model.fit(data, **kw)
-        fn = getattr(F, fit_name)
-        if via == 'Fitter':
-            fixed = {a: kw[a] for a in ('method', 'sigma_k') if a in kw}
-            rest = {a: v for a, v in kw.items() if a not in fixed}
-            return F.Fitter(fn, **fixed, **extra)(model, data, **rest)
-        return fn(model, data, **kw, **extra)
+        with _time_limit(limit):
+            if via == 'model.fit':
+                return model.fit(data, **kw)
+            fn = getattr(F, fit_name)
+            if via == 'Fitter':
+                fixed = {a: kw[a] for a in ('method', 'sigma_k') if a in kw}
+                rest = {a: v for a, v in kw.items() if a not in fixed}
+                return F.Fitter(fn, **fixed, **extra)(model, data, **rest)
+            return fn(model, data, **kw, **extra)
     finally:
         np.random.set_state(state)
+
+
+def _limit(case):
+    return 60 if _is_sweep(case) else None
 
 
 def _fmt(v):
@@ -272,19 +381,19 @@ def _fmt(v):
 # optimality of the weighted-sum fitters
 # =====================================================================================================
 def _weighted(case, fit_name, nonneg):
-    from rsatoolbox.model import ModelWeighted
     pb = _problem(case)
     k = case['k']
-    model = ModelWeighted('w', _rdms(pb['basis'], pb['labels']))
-    data = _rdms(pb['train_vecs'], [pb['labels'][s] for s in pb['S']])
+    model = _model('ModelWeighted', case, pb, 'w')
+    data = _train(case, pb)
     kw = _fit_kwargs(case, pb)
     via = case.get('via', 'direct')
+    lim = _limit(case)
     if via == 'model.fit':
-        theta = np.asarray(_call_fit(fit_name, model, data, kw, via, case['seed']), dtype=float)
+        theta = np.asarray(_call_fit(fit_name, model, data, kw, via, case['seed'], lim), dtype=float)
         theta_raw = None
     else:
-        theta = np.asarray(_call_fit(fit_name, model, data, kw, via, case['seed']), dtype=float)
-        theta_raw = np.asarray(_call_fit(fit_name, model, data, kw, via, case['seed'], normalize=False), dtype=float)
+        theta = np.asarray(_call_fit(fit_name, model, data, kw, via, case['seed'], lim), dtype=float)
+        theta_raw = np.asarray(_call_fit(fit_name, model, data, kw, via, case['seed'], lim, normalize=False), dtype=float)
     if theta.shape != (k,):
         return f'theta has shape {theta.shape}, expected ({k},)'
     if not np.all(np.isfinite(theta)):
@@ -387,13 +496,12 @@ def orc_optimize_positive(case):
 # =====================================================================================================
 @oracle('C08/select')
 def orc_select(case):
-    from rsatoolbox.model import ModelSelect
     pb = _problem(case)
     k = case['k']
-    model = ModelSelect('s', _rdms(pb['basis'], pb['labels']))
-    data = _rdms(pb['train_vecs'], [pb['labels'][s] for s in pb['S']])
+    model = _model('ModelSelect', case, pb, 's')
+    data = _train(case, pb)
     kw = _fit_kwargs(case, pb)
-    theta = _call_fit('fit_select', model, data, kw, case.get('via', 'direct'), case['seed'])
+    theta = _call_fit('fit_select', model, data, kw, case.get('via', 'direct'), case['seed'], _limit(case))
     if isinstance(theta, (bool, np.bool_)) or not isinstance(theta, (int, np.integer)):
         return f'fit_select returned {theta!r} of type {type(theta).__name__}, expected an integer index'
     if not 0 <= int(theta) < k:
@@ -408,13 +516,13 @@ def orc_select(case):
 
 @oracle('C08/interpolate')
 def orc_interpolate(case):
-    from rsatoolbox.model import ModelInterpolate
     pb = _problem(case)
     k = case['k']
-    model = ModelInterpolate('i', _rdms(pb['basis'], pb['labels']))
-    data = _rdms(pb['train_vecs'], [pb['labels'][s] for s in pb['S']])
+    model = _model('ModelInterpolate', case, pb, 'i')
+    data = _train(case, pb)
     kw = _fit_kwargs(case, pb)
-    theta = np.asarray(_call_fit('fit_interpolate', model, data, kw, case.get('via', 'direct'), case['seed']), dtype=float)
+    theta = np.asarray(_call_fit('fit_interpolate', model, data, kw, case.get('via', 'direct'), case['seed'], _limit(case)),
+                       dtype=float)
     if theta.shape != (k,):
         return f'theta has shape {theta.shape}, expected ({k},)'
     if not np.all(np.isfinite(theta)) or np.any(theta < 0) or np.any(theta > 1) or abs(theta.sum() - 1) > 1e-9:
